@@ -292,6 +292,39 @@ def threaded_case(case):
 
 
 
+# ------------------------------------------------------- a blocking acquirer that has to wait for long
+def patient_case(case):
+    """No permit is free and nobody releases one for `secs` seconds of real time (a window full of slow parts): a blocking acquirer
+    waits for as long as it takes - it may not come back with a token nobody gave it.  Then the permit is released and it must get it."""
+    from s3transfer.utils import SlidingWindowSemaphore, TaskSemaphore
+
+    count, cls, secs = case['count'], case['cls'], case['secs']
+    sem = SlidingWindowSemaphore(count) if cls == 'sliding' else TaskSemaphore(count)
+    held = [sem.acquire('A', False) for _ in range(count)]
+    got = []
+
+    def waiter():
+        got.append(sem.acquire('A', True))
+
+    th = threading.Thread(target=waiter, daemon=True, name='vf-patient')
+    th.start()
+    end = time.monotonic() + secs
+    while time.monotonic() < end and not got:
+        time.sleep(0.05)
+    viol = []
+    if got:
+        viol.append(V(f'{type(sem).__name__}({count}): all {count} permit(s) were held and none was released, yet a blocking acquire() returned '
+                      f'{got[0]!r} after waiting {secs}s at most', cls=type(sem).__name__, sym='acquired-without-release'))
+    else:
+        sem.release('A', held[0])
+        th.join(10)
+        if th.is_alive() or not got:
+            viol.append(V(f'{type(sem).__name__}({count}): a blocking acquirer that had waited {secs}s did not get the permit released then',
+                          cls=type(sem).__name__, sym='lost-wakeup'))
+    return {'verdict': 'violated' if viol else 'held', 'key': f'patient-{cls}-{count}-{secs}', 'violations': viol,
+            'stats': {'patient_waits': 1, 'patient_seconds': secs}, 'summary': {'got': repr(got)}}
+
+
 # ------------------------------------------------------- non-blocking acquirers under contention
 def nonblocking_case(case):
     """One permit is free; a non-blocking acquirer is held at a statement of acquire() while a rival (blocking or not) runs as far
@@ -460,6 +493,10 @@ def gen_cases(tier, seed):
                     for multi in ((False, True) if cls == 'sliding' else (False,)):
                         cases.append({'type': 'nb', 'cls': cls, 'count': count, 'rivals': rivals, 'multi_tag': multi,
                                       'seed': rng.randrange(1 << 30), 'window': {'lineno': ln, 'name': f'{f}:{ln}:{q}'}})
+    # a blocking acquirer that has to wait for seconds (real time; nothing in the library may give up waiting)
+    for cls in ('sliding', 'task'):
+        for count in (1, 2):
+            cases.append({'type': 'patient', 'cls': cls, 'count': count, 'secs': 5 if quick else 20})
     # end-to-end probe after fault / cancel runs
     from .c04 import fault_or_cancel
 
@@ -504,6 +541,8 @@ def run_case(case):
                 'summary': {'ops': n}}
     if t == 'nb':
         return nonblocking_case(case)
+    if t == 'patient':
+        return patient_case(case)
     if t == 'thr':
         res = None
         for rep in range(case.get('reps', 1)):
